@@ -1,7 +1,7 @@
 (* Model of configuration/componentcfg/query.go (NewQuery, Raw, NewQueryParameters),
    apricot/local/serviceutil.go (resolveComponentQuery) and the binding construction of
    apricot/local/service.go:GetAndProcessComponentConfiguration.   Definitions only. *)
-From Verif Require Export Common Gen_RunTypes.
+From Verif Require Export Common Gen_RunTypes Gen_TplCache.
 Open Scope N_scope.
 
 (* ---------- character classes (ASCII codes) ---------- *)
@@ -199,14 +199,29 @@ Definition params_of (kvs : list (str * str)) : qparams :=
             | None => true end)
            (filter (fun kv => negb (str_eqb (fst kv) k_process)) kvs).
 
-(* ---------- payload templating, fragment: literal text and {{ name }} ---------- *)
-Inductive tpiece := TLit (s : str) | TVar (name : str).
+(* ---------- payload templating ----------
+   fragment: literal text, {{ name }} and {{ expression }} where an expression is a string
+   literal, a name, a call of util.PrefixedOverride (legacy spelling: PrefixedOverride) - the one
+   utility function of configuration/template/stack.go:MakeUtilFuncMap that reads the variable
+   stack - or of one of the pure string functions strings.ToUpper / ToLower / TrimSpace /
+   TrimQuotes (legacy spelling: without the "strings." prefix). *)
+Inductive sfun := FUpper | FLower | FTrimSpace | FTrimQuotes.
+Inductive texpr :=
+| ELit (s : str)                                   (* "text" *)
+| EVar (name : str)                                (* context lookup; missing = nil *)
+| EPO (legacy : bool) (varname prefix : texpr)     (* util.PrefixedOverride(varname, prefix) *)
+| EFun (legacy : bool) (f : sfun) (arg : texpr).   (* strings.F(arg) *)
+Inductive tpiece := TLit (s : str) | TVar (name : str) | TExp (e : texpr).
 
 (* bindings as built by GetAndProcessComponentConfiguration: keys trimmed; later pairs
    of the (sorted) supplied list do not matter because supplied keys are distinct after
    trimming in the cases the harness generates; lookup = first hit *)
 Definition bindings (vars : list (str * str)) : list (str * str) :=
   map (fun kv => (trim (fst kv), snd kv)) vars.
+
+(* pongo2 refuses an execution context with a key outside [a-zA-Z0-9_]+ *)
+Definition is_ident_char (c : N) : bool := is_lower c || is_upper c || is_digit c || (c =? 95).
+Definition keys_ok (b : list (str * str)) : bool := forallb (fun kv => seg_ok is_ident_char (fst kv)) b.
 
 (* pongo2's default autoescape: & < > dquote squote are HTML-escaped in variable output
    (the set is created with pongo2.NewSet and autoescape is never switched off) *)
@@ -219,14 +234,170 @@ Definition escape_char (c : N) : str :=
   else [c].
 Definition escape_html (s : str) : str := flat_map escape_char s.
 
-Definition render_piece (b : list (str * str)) (p : tpiece) : str :=
-  match p with
-  | TLit s => s
-  | TVar n => match assoc n b with Some v => escape_html v | None => [] end
+(* util.PrefixedOverride: the value of <prefix>_<varname>, else that of <varname>, else "";
+   "none" and blank values count as absent.  It reads the variable stack AS SUPPLIED (keys not
+   trimmed) - [raw] below. *)
+Definition s_none : str := [110;111;110;101].
+Definition nullish (v : str) : bool := str_eqb v s_none || negb (nonempty (trim v)).
+Definition live (o : option str) : option str :=
+  match o with Some v => if nullish v then None else Some v | None => None end.
+Definition prefixed_override (raw : list (str * str)) (varname prefix : str) : str :=
+  match live (assoc (prefix ++ 95 :: varname) raw) with
+  | Some v => v
+  | None => match live (assoc varname raw) with Some v => v | None => [] end
   end.
 
-Definition render (vars : list (str * str)) (t : list tpiece) : str :=
-  flat_map (render_piece (bindings vars)) t.
+Fixpoint trim_left_q (l : str) : str :=
+  match l with
+  | c :: r => if c =? 34 then trim_left_q r else l
+  | [] => []
+  end.
+Definition apply_sfun (f : sfun) (s : str) : str :=
+  match f with
+  | FUpper => map (fun c => if is_lower c then c - 32 else c) s
+  | FLower => map (fun c => if is_upper c then c + 32 else c) s
+  | FTrimSpace => trim s
+  | FTrimQuotes => rev (trim_left_q (rev (trim_left_q s)))
+  end.
+
+(* value of an expression: error (a nil argument handed to a function), nil, or a string *)
+Inductive tval := VErr | VNil | VStr (s : str).
+
+(* [raw]: the variable stack the utility functions were built over;
+   [b]: the execution context (trimmed keys) *)
+Fixpoint eval (raw b : list (str * str)) (e : texpr) : tval :=
+  match e with
+  | ELit s => VStr s
+  | EVar n => match assoc n b with Some v => VStr v | None => VNil end
+  | EPO _ a p =>
+    match eval raw b a, eval raw b p with
+    | VStr x, VStr y => VStr (prefixed_override raw x y)
+    | _, _ => VErr
+    end
+  | EFun _ f a => match eval raw b a with VStr x => VStr (apply_sfun f x) | _ => VErr end
+  end.
+
+Definition render_piece (raw b : list (str * str)) (p : tpiece) : option str :=
+  match p with
+  | TLit s => Some s
+  | TVar n => Some (match assoc n b with Some v => escape_html v | None => [] end)
+  | TExp e => match eval raw b e with
+              | VStr s => Some (escape_html s)
+              | VNil => Some []
+              | VErr => None
+              end
+  end.
+
+Fixpoint render_pieces (raw b : list (str * str)) (t : list tpiece) : option str :=
+  match t with
+  | [] => Some []
+  | p :: r => match render_piece raw b p, render_pieces raw b r with
+              | Some x, Some y => Some (x ++ y)
+              | _, _ => None
+              end
+  end.
+
+(* [fm]: the variables the function map is a closure over; [vars]: the variables of the request.
+   None = the request fails. *)
+Definition render_g (fm vars : list (str * str)) (t : list tpiece) : option str :=
+  if keys_ok (bindings vars) then render_pieces fm (bindings vars) t else None.
+
+(* the pure per-request result: everything is built from the variables of the request *)
+Definition render (vars : list (str * str)) (t : list tpiece) : option str := render_g vars vars t.
+
+(* ---------- the service across requests ----------
+   GetAndProcessComponentConfiguration keeps one pongo2 template set per directory
+   (component/RUNTYPE/role[/...]) whose cache holds the compiled templates;
+   InvalidateComponentTemplateCache drops all sets.  [s_backend] is the configuration tree
+   (newest first), [s_cache] the compiled templates, [s_fm] the variables a function map
+   registered with a template set was built over - only used when the switch [shared] is on,
+   which is NOT what the source does (Gen_TplCache: no data of a request reaches the state of the
+   Service; the function map is built from the variables of the request). *)
+Inductive sop :=
+| OReq (path : str) (vars : list (str * str))
+| OInv
+| OPut (path : str) (content : list tpiece).
+
+Record svc := mkSvc { s_backend : list (str * list tpiece);
+                      s_cache : list (str * list tpiece);
+                      s_fm : list (str * list (str * str)) }.
+
+(* directory of a path: everything before the last slash *)
+Definition dir_of (p : str) : str :=
+  match split_at slash (rev p) with
+  | (_, Some r) => rev r
+  | (_, None) => []
+  end.
+
+(* one operation; the output is the payload of a request (None: failed / not a request) *)
+Definition step_g (shared : bool) (st : svc) (op : sop) : svc * option str :=
+  match op with
+  | OInv => (mkSvc (s_backend st) [] [], None)
+  | OPut p c => (mkSvc ((p, c) :: s_backend st) (s_cache st) (s_fm st), None)
+  | OReq p vars =>
+    let d := dir_of p in
+    let fms := if shared then match assoc d (s_fm st) with Some _ => s_fm st | None => (d, vars) :: s_fm st end
+               else s_fm st in
+    let fm := if shared then match assoc d fms with Some v => v | None => vars end else vars in
+    match assoc p (s_cache st) with
+    | Some t => (mkSvc (s_backend st) (s_cache st) fms, render_g fm vars t)
+    | None =>
+      match assoc p (s_backend st) with
+      | Some t => (mkSvc (s_backend st) ((p, t) :: s_cache st) fms, render_g fm vars t)
+      | None => (mkSvc (s_backend st) (s_cache st) fms, None)
+      end
+    end
+  end.
+
+Fixpoint run_g (shared : bool) (st : svc) (ops : list sop) : svc * list (option str) :=
+  match ops with
+  | [] => (st, [])
+  | op :: r => let '(st1, o) := step_g shared st op in
+               let '(st2, os) := run_g shared st1 r in (st2, o :: os)
+  end.
+
+(* the switch as set by the source: on if data of a request reaches the state of the Service, or if
+   the function map handed to the template is not built from the variables of the request *)
+Definition fm_shared : bool := tplcache_request_data_cached || negb tplcache_funcmap_from_request.
+Definition step := step_g fm_shared.
+Definition run := run_g fm_shared.
+Definition fresh (backend : list (str * list tpiece)) : svc := mkSvc backend [] [].
+
+(* ---------- vocabulary of the templating theorems ---------- *)
+(* names an expression / a template looks up in the execution context *)
+Fixpoint expr_names (e : texpr) : list str :=
+  match e with
+  | ELit _ => []
+  | EVar n => [n]
+  | EPO _ a p => expr_names a ++ expr_names p
+  | EFun _ _ a => expr_names a
+  end.
+Definition piece_names (p : tpiece) : list str :=
+  match p with TLit _ => [] | TVar n => [n] | TExp e => expr_names e end.
+Definition tpl_names (t : list tpiece) : list str := flat_map piece_names t.
+(* does it call PrefixedOverride (which looks up computed keys in the supplied variables) *)
+Fixpoint expr_overrides (e : texpr) : bool :=
+  match e with
+  | EPO _ _ _ => true
+  | EFun _ _ a => expr_overrides a
+  | _ => false
+  end.
+Definition tpl_overrides (t : list tpiece) : bool :=
+  existsb (fun p => match p with TExp e => expr_overrides e | _ => false end) t.
+
+(* two operations that differ at most in the variables of a request *)
+Definition op_shape (a b : sop) : Prop :=
+  match a, b with
+  | OReq p _, OReq p' _ => p = p'
+  | OInv, OInv => True
+  | OPut p c, OPut p' c' => p = p' /\ c = c'
+  | _, _ => False
+  end.
+Definition no_put (h : list sop) : bool :=
+  forallb (fun op => match op with OPut _ _ => false | _ => true end) h.
+(* the template a request for [p] is rendered from *)
+Definition in_effect (st : svc) (p : str) : option (list tpiece) :=
+  match assoc p (s_cache st) with Some t => Some t | None => assoc p (s_backend st) end.
 
 (* ---------- correspondence cases ---------- *)
 Inductive c20_case :=
@@ -235,7 +406,12 @@ Inductive c20_case :=
 | CParams (input : str) (observed : option (bool * list (str * str))) (* sorted by key *)
 | CResolve (q : query) (existing : list str) (observed : option query)
            (get_ok : bool)                                   (* ResolveComponentQuery + Get on result *)
-| CRender (vars : list (str * str)) (t : list tpiece) (observed : option str).
+| CRender (vars : list (str * str)) (t : list tpiece) (observed : option str)
+(* a sequence of operations on ONE Service over a backend that starts as [backend]:
+   [observed] = what each operation returned (None: failed / not a request),
+   [cold] = what the same request returned alone on a fresh Service over the backend as it
+   was at that moment *)
+| CSeq (backend : list (str * list tpiece)) (ops : list sop) (observed cold : list (option str)).
 
 (* insertion sort of pairs by key, to compare with Go's sorted map dump *)
 Fixpoint str_leb (a b : str) : bool :=
@@ -253,6 +429,16 @@ Definition sort_kv (l : list (str * str)) := fold_right ins_kv [] l.
 
 Definition kv_eqb := pair_eqb str_eqb str_eqb.
 
+(* the pure per-request results along a sequence: each request alone, on the backend of the moment *)
+Fixpoint pure_outs (be : list (str * list tpiece)) (ops : list sop) : list (option str) :=
+  match ops with
+  | [] => []
+  | OReq p vars :: r =>
+    (match assoc p be with Some t => render vars t | None => None end) :: pure_outs be r
+  | OInv :: r => None :: pure_outs be r
+  | OPut p c :: r => None :: pure_outs ((p, c) :: be) r
+  end.
+
 Definition corr20 (c : c20_case) : bool :=
   match c with
   | CParse s o => option_eqb query_eqb (parse_query s) o
@@ -263,18 +449,37 @@ Definition corr20 (c : c20_case) : bool :=
                 | Some p => Some (p_process p, sort_kv (p_vars p))
                 | None => None end) o
   | CResolve q ex o _ => option_eqb query_eqb (resolve (fun p => mem_str p ex) q) o
-  | CRender vars t o => option_eqb str_eqb (Some (render vars t)) o
+  | CRender vars t o => option_eqb str_eqb (render vars t) o
+  | CSeq be ops o cold =>
+    list_eqb (option_eqb str_eqb) (snd (run (fresh be) ops)) o &&
+    list_eqb (option_eqb str_eqb) (pure_outs be ops) cold
   end.
 
 (* monitor: the property evaluated on what the implementation did (no model function of
    the decision involved).  Codes: 0 ok; 1 parsed value does not print back to the
    trimmed input; 2 parsed query not well-formed; 3 resolve returned a non-existing path
    or not the first existing candidate; 4 resolve failed although a candidate exists;
-   5 resolved entry could not be fetched. *)
+   5 resolved entry could not be fetched; 6 accepted query parameters do not spell the input;
+   7 the payload of a request on a warm Service differs from the payload of the same request
+   alone on a fresh Service although the entry did not change since its template was compiled
+   (something cached across requests reached the payload). *)
 Fixpoint first_existing (ex : str -> bool) (l : list query) : option query :=
   match l with
   | [] => None
   | q :: r => if ex (print_query q) then Some q else first_existing ex r
+  end.
+
+(* bookkeeping of the template cache discipline only (no rendering): [cached] = entries asked
+   for since the last invalidation, [stale] = those of them that were rewritten afterwards and are
+   served from the old template by design *)
+Fixpoint seq_leak (cached stale : list str) (ops : list sop) (o cold : list (option str)) : bool :=
+  match ops, o, cold with
+  | OReq p _ :: r, w :: o', c :: cold' =>
+    (negb (mem_str p stale) && negb (option_eqb str_eqb w c)) || seq_leak (p :: cached) stale r o' cold'
+  | OInv :: r, _ :: o', _ :: cold' => seq_leak [] [] r o' cold'
+  | OPut p _ :: r, _ :: o', _ :: cold' =>
+    seq_leak cached (if mem_str p cached then p :: stale else stale) r o' cold'
+  | _, _, _ => false
   end.
 
 Definition mon20 (c : c20_case) : N :=
@@ -299,6 +504,7 @@ Definition mon20 (c : c20_case) : N :=
     else if negb (forallb (fun p => mem_str p items) printed) then 6
     else if negb (forallb (fun it => is_process it || mem_str it printed) items) then 6
     else 0
+  | CSeq _ ops o cold => if seq_leak [] [] ops o cold then 7 else 0
   | _ => 0
   end.
 
@@ -315,7 +521,10 @@ Definition tag20 (c : c20_case) : N :=
        + (if ex (print_query (with_any_rt q)) then 2 else 0)
        + (if ex (print_query (with_any_role q)) then 4 else 0)
        + (if ex (print_query (with_any_rt (with_any_role q))) then 8 else 0)
-  | CRender _ _ _ => 30
+  | CRender _ t _ => if existsb (fun p => match p with TExp _ => true | _ => false end) t then 35 else 30
+  | CSeq _ ops _ _ =>
+    31 + (if existsb (fun op => match op with OInv => true | _ => false end) ops then 1 else 0)
+       + (if existsb (fun op => match op with OPut _ _ => true | _ => false end) ops then 2 else 0)
   end.
 
 Definition report20 := report corr20 mon20 tag20.
